@@ -252,7 +252,7 @@ RECIPE = {}
 
 
 def _wit_op(o):
-    d = dict(o)
+    d = {k: v for k, v in o.items() if not k.startswith('_')}
     v = d.get('values')
     if isinstance(v, np.ndarray) and v.size > BIG:
         if RECIPE:
@@ -331,7 +331,26 @@ def _pre_save_signal(args, kwargs):
         op['kw'] = True
     if attach.STATE['depth'] == 0:
         op['obj'] = _token(sig)
+    op['_state'] = _obj_state(sig)
     return _begin(ffp, op)
+
+
+def _fingerprint(v):
+    if isinstance(v, np.ndarray):
+        return ('ndarray', str(v.dtype), v.shape, v.tobytes())
+    if isinstance(v, dict):
+        return ('dict', repr(sorted((repr(k), _fingerprint(x)) for k, x in v.items())))
+    if isinstance(v, (list, tuple)) and len(v) < 64:
+        return (type(v).__name__, tuple(_fingerprint(x) for x in v))
+    return ('repr', type(v).__name__, repr(v)[:200])
+
+
+def _obj_state(sig):
+    """Every attribute the object carries (values, dt, label, options, cached series and spectra, cache flags)."""
+    try:
+        return {k: _fingerprint(v) for k, v in vars(sig).items()}
+    except Exception:
+        return {}
 
 
 def _same_bits(now, snap):
@@ -345,8 +364,12 @@ def _arguments_unchanged(op, args, kwargs):
         if op['op'] == 'save_signal':
             sig = args[1] if len(args) > 1 else kwargs['signal']
             now = sig.values if isinstance(sig.values, np.ndarray) else np.asarray(sig.values)   # (a list on old trees)
+            after = _obj_state(sig)
+            changed = [k for k, f in op.get('_state', {}).items() if after.get(k) != f]
+            if changed:
+                op['_changed'] = changed
             return (_same_bits(now, op['values']) and _describe_dt(sig.dt) == (op['dt'], op['dt_type'])
-                    and sig.label == op['label'] and type(sig).__name__ == op['sigtype'])
+                    and sig.label == op['label'] and type(sig).__name__ == op['sigtype'] and not changed)
         ffp, values, dt, label = _save_values_args(args, kwargs)
         if isinstance(values, np.ndarray):
             same = _same_bits(values, op['values'])
@@ -367,9 +390,9 @@ def _post_save(args, kwargs, result, pre):
     CTX.observe('monitored-' + op['op'])
     if op.get('values') is not None:
         CTX.check(_arguments_unchanged(op, args, kwargs), 'save.leaves-arguments-unchanged',
-                  lambda: _witness(key, saver=op['op']),
-                  '%s changed the signal it was given (values/dt/label differ bit-for-bit from their state at call entry)'
-                  % op['op'])
+                  lambda: _witness(key, saver=op['op'], changed_attributes=op.get('_changed')),
+                  '%s changed the signal it was given (values/dt/label/attributes %s differ bit-for-bit from their state '
+                  'at call entry)' % (op['op'], op.get('_changed') or ''))
     if outer:
         _recheck_held(key)
 
@@ -437,7 +460,11 @@ def _judge_numbers(ctx, key, loader, exp, n_got, dt_got, vals_got, m):
         return
     try:
         got = np.asarray(vals_got, dtype=float)
-        mf = float(m)
+        ma = np.asarray(m, dtype=float)
+        if ma.size != 1:
+            ctx.observe('array-valued-m(not-judged)')
+            return
+        mf = float(ma.reshape(-1)[0])
     except Exception:
         got = None
     if got is None or got.shape != exp['prim'].shape:
@@ -505,10 +532,29 @@ def _snapshot(result):
     return None
 
 
+def _values_of(result):
+    return result[0] if isinstance(result, tuple) else result.values
+
+
+def forget_held(obj):
+    """Driver hook: the caller is about to edit this result in place; it is no longer expected to stay as returned."""
+    HELD[:] = [h for h in HELD if h[2] is not obj]
+
+
 def _hold(key, loader, result):
     snap = _snapshot(result)
     if snap is None:
         return
+    for hkey, hloader, hres, hsnap in HELD:
+        if hres is result:
+            continue
+        try:
+            shared = bool(np.may_share_memory(_values_of(result), _values_of(hres)))
+        except Exception:
+            shared = False
+        CTX.check(not shared, 'returned-objects-share-no-memory',
+                  lambda: _witness(key, loader=loader, earlier_loader=hloader, earlier_pid=PIDS.get(hkey)),
+                  'the values returned by %s share memory with the values %s returned earlier' % (loader, hloader))
     HELD.append((key, loader, result, snap))
     if len(HELD) > 2:
         del HELD[0]
@@ -543,6 +589,8 @@ def _history_tick(e):
         sv = e.get('saved')
         if sv and isinstance(sv.get('values'), np.ndarray) and sv['values'].size > LONG_N:
             CTX.ok('long-record(>65536).reload')
+        elif sv and isinstance(sv.get('values'), np.ndarray) and sv['values'].size >= 4095:
+            CTX.ok('block-boundary-record(4095..65536).reload')
 
 
 # ------------------------------------------------------------------------------------------- load monitors
@@ -751,6 +799,24 @@ def _mutate(eqsig, ctx, op):
             obj.npts, obj.time, obj.dt
             if isinstance(obj, eqsig.AccSignal) and obj.npts >= 3:
                 obj.velocity, obj.displacement
+        elif kind == 'warm':             # an analysed object: spectra, series and peak values cached on it
+            if obj.npts >= 4 and obj.values.dtype.kind == 'f':
+                obj.fa_spectrum, obj.fa_frequencies
+                if isinstance(obj, eqsig.AccSignal):
+                    obj.velocity, obj.displacement, obj.pga, obj.pgv
+        elif kind == 'deepcopy':         # continue with a deep copy of the (possibly warm) object
+            import copy
+            _LAST['sig_obj'] = copy.deepcopy(obj)
+        elif kind == 'interp':           # objects made by the library itself from the held one
+            if isinstance(obj, eqsig.AccSignal) and 2 <= obj.npts <= 400 and obj.values.dtype.kind == 'f':
+                _LAST['sig_obj'] = eqsig.interp_to_approx_dt(obj, float(obj.dt) * op['ratio'])
+        elif kind == 'resample':
+            if isinstance(obj, eqsig.AccSignal) and 8 <= obj.npts <= 400 and obj.values.dtype.kind == 'f':
+                _LAST['sig_obj'] = eqsig.resample_to_approx_dt(obj, float(obj.dt) * 2)
+        elif kind == 'cluster-member':
+            if obj.npts >= 2 and obj.values.dtype.kind == 'f':
+                cl = eqsig.Cluster([obj.values, np.array(obj.values[::-1])], float(obj.dt))
+                _LAST['sig_obj'] = cl.signal_by_index(int(op.get('member', 0)))
         ctx.observe('objhist-' + kind)
     except Exception:
         ctx.observe('objhist-mutator-raised(%s)' % kind)
@@ -801,12 +867,40 @@ def execute(eqsig, ctx, op, path):
                 r = getattr(eqsig, k)(path, *op.get('args', []), **op.get('kwargs', {}))
             if isinstance(r, eqsig.Signal):
                 _LAST['sig'] = r
+            _LAST['res'] = r
         elif k == 'new_signal':
             _LAST.pop('sig_obj', None)
             _signal_object(eqsig, dict(op, same_object_as_prev_save=False))
             return None
         elif k == 'mutate':
             _mutate(eqsig, ctx, op)
+            return None
+        elif k == 'edit_result':      # the caller corrects, in place, the result a loader gave it; the library's own
+            res = _LAST.get('res')    # state (a cache, a scratch buffer) and earlier results must not notice
+            arr = None if res is None else (res[0] if isinstance(res, tuple) else getattr(res, 'values', None))
+            if isinstance(arr, np.ndarray) and arr.flags.writeable and arr.ndim == 1 and arr.size:
+                forget_held(res)
+                if op.get('how') == 'zero':
+                    arr[...] = 0.0
+                elif op.get('how') == 'first':
+                    arr[0] = arr[0] + 1234.5
+                else:
+                    arr[...] = arr * 2.0 + 1.0
+                ctx.observe('result-edited-in-place')
+            return None
+        elif k == 'complex_probe':    # a complex record made by the library (fas2signal): outside the format, counted
+            obj = _LAST.get('sig_obj')
+            try:
+                with np.errstate(all='ignore'):
+                    import warnings
+                    with warnings.catch_warnings():
+                        warnings.simplefilter('ignore')
+                        cs = eqsig.fns.frequency.fas2signal(obj.fa_spectrum, float(obj.dt), stype='acc_sig')
+                        eqsig.save_signal(path + '.cplx', cs)
+                        eqsig.load_asig(path + '.cplx')
+                ctx.observe('complex-record-probe-returned')
+            except Exception:
+                ctx.observe('complex-record-probe-raised')
             return None
         else:
             raise ValueError('unknown op %r' % (k,))
